@@ -108,6 +108,15 @@ CHECKS = {
         "spellings, parsed, imported, projected and compared.",
    note="Trusted: TLC, token->text glue, raw projection (layers by name). Scaled magnitudes below 2^31.",
    tech="TLA+ mapping spec + TLC case enumeration; S->I replay"),
+ "C06": dict(cat="model_checking", ref="§6 C06",
+   text="GdsSemantics.tla gives GDSII structures their meaning as flat geometry (placement algebra D4, AREF lattice, label-in-"
+        "shape by exact containment) and the set of libraries that must be errors; MC_GdsSemantics enumerates hierarchies in several "
+        "listing orders x 64 orientation pairs, all rectangle/polygon point orders, arrays x 8 orientations, labels in/on/outside "
+        "shapes and malformed libraries; each is imported by the crate, flattened with Layout::flatten and compared as canonical "
+        "bags (plus nets and annotations); big arrays are checked by count and corner placements.",
+   note="Trusted: TLC, the GDS constructor and raw projection glue, canonical forms (rect = axis-aligned 4-gon; polygons up to "
+        "rotation/reversal). Err is always acceptable per the statement.",
+   tech="TLA+ semantics spec + TLC case enumeration; S->I replay"),
 }
 
 PENDING = {}
